@@ -573,6 +573,9 @@ pub fn check_law(job: &LawJob) -> LawOutcome {
     let mut reason = None;
     if job.n < job.min_n {
         reason = Some(format!("n {} below tier minimum {}", job.n, job.min_n));
+    } else if sl.rho_rel > 0.05 || sl.rho_abs > 0.01 {
+        // the allowance granted to the reference exceeds the size of a defect worth finding
+        reason = Some(format!("slack too loose: rho_rel={:e} rho_abs={:e}", sl.rho_rel, sl.rho_abs));
     } else if job.law.discrete {
         let big = (0..=eb.len())
             .filter(|&i| {
